@@ -17,7 +17,7 @@ func genC18(r *Rng, tier string, idx int) *Plan {
 	p := &Plan{SchedSeed: r.U64()}
 	nf := r.Range(2, 3)
 	p.Spec = genSpec(r, genOpts{Filters: nf, NoFetch: r.Bool(), Timeouts: true, Logout: 0})
-	topo := []string{"shared-memory", "shared-redis", "distinct-redis", "mixed"}[idx%4]
+	topo := []string{"shared-memory", "shared-redis", "distinct-redis", "mixed", "same-server-different-db"}[idx%5]
 	for i := range p.Spec.Filters {
 		f := &p.Spec.Filters[i]
 		switch topo {
@@ -27,6 +27,9 @@ func genC18(r *Rng, tier string, idx int) *Plan {
 			f.Store = "redis"
 		case "distinct-redis":
 			f.Store = []string{"redis", "redis2", "redis"}[i]
+		case "same-server-different-db":
+			// one Redis server, separate logical databases: separate keyspaces, separate stores
+			f.Store = []string{"redis", "redisdb1", "redis2"}[i]
 		default:
 			f.Store = []string{"memory", "redis", "memory"}[i]
 		}
